@@ -844,13 +844,29 @@ where
                         self.wrap_children(elems, slot_flag, slots)
                     }
                 }
-                expr @ Expr::Fn(..) | expr @ Expr::Arrow(..) => Expr::Object(ObjectLit {
-                    span: DUMMY_SP,
-                    props: vec![PropOrSpread::Prop(Box::new(Prop::KeyValue(KeyValueProp {
-                        key: PropName::Ident(quote_ident!("default")),
-                        value: Box::new(expr.clone()),
-                    })))],
-                }),
+                expr @ Expr::Fn(..) | expr @ Expr::Arrow(..) => {
+                    let mut props =
+                        vec![PropOrSpread::Prop(Box::new(Prop::KeyValue(KeyValueProp {
+                            key: PropName::Ident(quote_ident!("default")),
+                            value: Box::new(expr.clone()),
+                        })))];
+                    // keep `v-slots` entries beside the default slot
+                    if let Some(slots) = slots {
+                        match *slots {
+                            Expr::Object(ObjectLit {
+                                props: slot_props, ..
+                            }) => props.extend(slot_props),
+                            expr => props.push(PropOrSpread::Spread(SpreadElement {
+                                dot3_token: DUMMY_SP,
+                                expr: Box::new(expr),
+                            })),
+                        }
+                    }
+                    Expr::Object(ObjectLit {
+                        span: DUMMY_SP,
+                        props,
+                    })
+                }
                 Expr::Object(ObjectLit { props, .. }) => {
                     let mut props = props.clone();
                     if self.options.optimize {
